@@ -1,4 +1,6 @@
 """REWRITE family: shared runner for C01, C02, C04, C06, C07 (single steps and probes)."""
+import json
+import os
 import random
 import re
 
@@ -12,10 +14,10 @@ ALL_BRANCHES = {"assoc.left_child_up", "assoc.right_child_up", "comm.equation", 
                 "restate.add_neg_const", "restate.add_neg_const_var", "restate.add_neg_const_var_exp", "varmul.simple", "varmul.chained", "varmul.chained_left_right",
                 "move.const_of_multiply", "move.addition", "factor.simple", "factor.chained_both", "factor.chained_right", "factor.chained_right_left",
                 "factor.chained_left", "factor.chained_left_right"}
-STRUCT = {"vars", "context", "source_modified", "shares_nodes_with_source", "result_not_expression", "worked_on_another_node"}
+STRUCT = {"earlier_result_changed_by_later_calls", "vars", "context", "source_modified", "shares_nodes_with_source", "result_not_expression", "worked_on_another_node"}
 CLAUSES = {
-    "C01": {"value"},
-    "C02": {"solutions", "divides_by_zero"},
+    "C01": {"value", "earlier_result_changed_by_later_calls"},
+    "C02": {"solutions", "divides_by_zero", "earlier_result_changed_by_later_calls"},
     "C04": {"roundtrip"},
     "C06": {"raises_after_can_apply", "result_not_expression", "can_apply_raises", "can_apply_modifies_tree",
             "can_apply_not_deterministic", "find_nodes_disagrees", "r_index_wrong", "find_node_not_first",
@@ -87,6 +89,8 @@ def signature(prop, ev, clauses):
             big = "bigconst" if any(e == "big" for e in ev["hb"].get("ex", [])) else "-"
             return "%s|can_apply_raises|%s%s|probe|%s|%s" % (prop, ev["rule"], ":" + ev["opt"] if ev["opt"] else "", ev["exc"], big)
         return "%s|%s|%s%s|probe" % (prop, cl, ev["rule"], ":" + ev["opt"] if ev["opt"] else "")
+    if ev["typ"] == "intact":
+        return "%s|%s|result of %s" % (prop, cl, ev["rule"])
     if ev["typ"] == "reprobe":
         return "%s|%s|after %s" % (prop, cl, ev["rule"].split("@")[0])
     if ev["typ"] == "print":
@@ -173,7 +177,9 @@ def run_family(ctx, cases, prop):
         texts, res.rule = start_texts(ctx, prop, res)
         res.exhaustive = False
     else:
-        texts = [c["second"][0] if c.get("second") else c["text"] for c in cases]
+        OPT = "[python -O] "
+        texts = [c["second"][0] if c.get("second") else c["text"] for c in cases if not c["text"].startswith(OPT)]
+        opt_texts = [(c["second"][0] if c.get("second") else c["text"][len(OPT):]) for c in cases if c["text"].startswith(OPT)]
         res.rule = "replay"
     from .common import Pool
     jobs = [(t, prop == "C06", (8 if t in set(rewrite.NUMPY_ZERO_EQ_FORMS) else True) if prop == "C02" else False) for t in texts]
@@ -195,6 +201,28 @@ def run_family(ctx, cases, prop):
         jobs = [(t, True, 8) for t in texts]
     with Pool(16) as pool:
         events = [e for l in pool.map(rewrite.events_for_text, jobs, chunksize=20) for e in l]
+    if (cases is None and prop in ("C01", "C02", "C06", "C07")) or (cases is not None and opt_texts):
+        # the same sessions in an interpreter started with -O for the special forms and a sample
+        import subprocess
+        import sys
+        rng4 = random.Random(ctx.seed + 23)
+        special = [t for t in rewrite.FORMS + rewrite.EQ_FORMS + rewrite.HUGE_FORMS[1:] if t in set(texts)]
+        ojobs = [(t, prop == "C06", False) for t in (special + rng4.sample(texts, min(len(texts), 150 if ctx.quick else 3000)) if cases is None else opt_texts)]
+        chunks = [ojobs[i::8] for i in range(8)]
+        procs = [subprocess.Popen([sys.executable, "-O", "-m", "harness.optchild"], cwd=common.ROOT, stdin=subprocess.PIPE, stdout=subprocess.PIPE, stderr=subprocess.DEVNULL,
+                                  env=dict(os.environ, PYTHONPATH=common.REPO)) for _ in chunks]
+        for pr, ch in zip(procs, chunks):
+            pr.stdin.write(json.dumps(ch).encode()); pr.stdin.close()
+        nopt = 0
+        for pr in procs:
+            doc = json.loads(pr.stdout.read().decode() or '{"debug": true, "events": []}')
+            pr.wait()
+            if doc["debug"]:
+                raise tlc.TLCError("the -O child interpreter did not run optimised")
+            events += doc["events"]
+            nopt += len(doc["events"])
+        res.extra["events_from_python_O_child"] = nopt
+        res.rule += "; the special forms and %d sampled texts again in a child interpreter started with -O (no assert statements)" % (len(ojobs) - len(special))
     if prop == "C04":
         ptexts = list(texts)
         if cases is None:
@@ -214,6 +242,9 @@ def run_family(ctx, cases, prop):
             res.rule += "; str(parse(s)) parsed back for every TLC-emitted sentence (<= %d tokens, with operand variants) and curated text" % (5 if ctx.quick else 6)
         with Pool(16) as pool:
             events += [e for l in pool.map(rewrite.print_event, sorted(set(ptexts)), chunksize=200) for e in l]
+            if cases is None:
+                events += [e for l in pool.map(rewrite.print_event, rewrite.big_count_prints(), chunksize=1) for e in l]
+                res.rule += "; texts with 60..170 function calls / 30..85 parenthesised products, printed as parsed and after ONE distributive step at the root (twice as many)"
     if cases is not None and cases and "k" in cases[0]:
         want = {(c["text"], c.get("rule"), c.get("opt"), c.get("k")) for c in cases}
         events = [e for e in events if (e["text"], e["rule"], e["opt"], e.get("k")) in want or e["typ"] == "probe"]
